@@ -3,7 +3,7 @@ Closed-form configurations are built through the public API with random paramete
 by the implementation and checked against the closed form (image point, equal optical paths,
 zero wavefront error, unit Strehl ratio); the same lenses and rays go through the model
 (`Model/Real.lean`) for the correspondence."""
-import math, zlib
+import math, zlib, json
 import numpy as np
 from .core import Driver, Ctx, audit, finish
 from . import lensgen, c02, realenc
@@ -218,7 +218,10 @@ def check_config(ctx, cfg, quick):
             if opd.size and np.max(np.abs(opd)) > 1e-6:
                 ctx.fail('reported wavefront error is zero (%s)' % name, case, float(np.max(np.abs(opd))), 0.0)
                 return None
-            psf = FFTPSF(o, field=(0, 0), wavelength=W, num_rays=32, grid_size=64 if quick else 128)
+            # even and odd grids (the centre sample of an odd grid is a different index)
+            gsel = zlib.crc32(json.dumps(cfg['params'], sort_keys=True, default=str).encode()) % 4
+            psf = FFTPSF(o, field=(0, 0), wavelength=W, num_rays=32,
+                         grid_size=(64 if quick else 128) if gsel < 2 else (65 if gsel == 2 else 97))
             s = float(psf.strehl_ratio())
             if not (abs(s - 1) <= 1e-6):
                 # partly vignetted pupils exceed 1 (finding F17 of C11); here the pupil is unvignetted
